@@ -82,8 +82,8 @@ CLAIMED.update({
               "for m<=5/6 and their certificates checked up to m=10/12.",
               "Deepening: the ILP constraint builders are mirrored and proved sound and complete (ILP optimum = reference optimum, decoding of axis "
               "and deletion set); the constraint multiset python-mip receives is compared with the mirror. the dynamic programme of k_alternative_deletion is mirrored and proved sound "
-              "(elp_sound: valid certificate, upper bound) and compared with the code at every size; its optimality is compared with a fast verified reference "
-              "(fast_min_alt = min_alt_del, proved) up to m = 15; CBC (max_gap 0.05) is trusted; fewer than 20 alternatives as the property requires.", "C12"),
+              "(elp_sound: valid certificate, upper bound) AND optimal for every size (place_complete, elp_optimal: the mirror returns exactly min_alt_del); the code is "
+              "compared with the mirror at every size and with a fast verified reference (fast_min_alt = min_alt_del, proved) up to m = 15; CBC (max_gap 0.05) is trusted; fewer than 20 alternatives as the property requires.", "C12"),
     "C13": _r("Coq theorems: single-peaked-on-a-tree specification, connectivity test, tree and witness checkers proved equivalent to the "
               "spec (orientation/order of edges irrelevant), candidate-tree enumeration proved complete, decider correct for every size, "
               "invariance. is_single_peaked_on_tree compared with the decider (exhaustive m<=4, random m<=7/8), every returned edge list "
@@ -150,8 +150,8 @@ CLAIMED.update({
               "k_alt_partition_approx through the checker up to m=25; k_alternative_partition_brut_force vs the reference for every k "
               "(exhaustive m<=5, fixed case set m=6..9).",
               "Deepening: the repaired brute-force DFS is mirrored and proved sound for every size (bf_sound, bf_none_when_infeasible, "
-              "bf_some_bounds); its minimality is proved by kernel evaluation on small domains only (bf_complete_min_partial_small) and otherwise "
-              "compared with the proved reference for every k; the approx loop is mirrored and proved valid (approx_valid). A non-minimality "
+              "bf_some_bounds) and minimum / complete for every size (bf_complete_min, bf_algo_ok: the mirror meets the brute-force contract); the code is "
+              "compared with the mirror and with the proved reference for every k; the approx loop is mirrored and proved valid (approx_valid). A non-minimality "
               "defect of the brute force found by this check was repaired (175f7ec); no open finding.", "C18"),
     "C19": _r("Coq theorems: embedding checker over exact rationals equivalent to 'every voter ranks by strictly increasing distance', "
               "Euclidean => single-peaked and single-crossing (necessary conditions), and an exact decision procedure "
